@@ -1,6 +1,6 @@
 #!/usr/bin/env python3
-"""merge_evidence.py <out> <pass0> <pass1> ...: thorough tier = the committed catalogue (pass 0)
-plus regenerated catalogues. Counts that are sums over passes are summed; distinct counts are
+"""merge_evidence.py <out> <tier> <pass0> <pass1> ...: pass 0 = the committed catalogue, pass 50 =
+the uniform catalogue, passes 1.. = regenerated catalogues (thorough tier). Counts that are sums over passes are summed; distinct counts are
 NOT summed (the hand-written part of every catalogue is the same): distinct_nontrivial is pass
 0's measured number and each further pass is listed with its own."""
 import json, sys, re
@@ -14,17 +14,19 @@ def add_dict(a, b):
             a[k] = a.get(k, 0) + v
     return a
 
-out, files = sys.argv[1], sorted(sys.argv[2:], key=lambda f: int(re.findall(r'_(\d+)\.json$', f)[0]))
+out, tier, files = sys.argv[1], sys.argv[2], sorted(sys.argv[3:], key=lambda f: int(re.findall(r'_(\d+)\.json$', f)[0]))
 base = json.load(open(files[0]))
 cov = base["coverage"]
-passes = [{"pass": 0, "catalogue": cov["catalogue"], "evaluations": cov["evaluations"],
+def passno(f):
+    return int(re.findall(r'_(\d+)\.json$', f)[0])
+passes = [{"pass": passno(files[0]), "catalogue": cov["catalogue"], "evaluations": cov["evaluations"],
            "distinct_nontrivial": cov["distinct_nontrivial"], "scenarios": cov["scenarios"], "wall_s": base["wall_s"]}]
 wall = base["wall_s"]
 viol = base.get("violations", 0)
 for i, f in enumerate(files[1:], 1):
     e = json.load(open(f))
     c = e["coverage"]
-    passes.append({"pass": i, "catalogue": c["catalogue"], "evaluations": c["evaluations"],
+    passes.append({"pass": passno(f), "catalogue": c["catalogue"], "evaluations": c["evaluations"],
                    "distinct_nontrivial": c["distinct_nontrivial"], "scenarios": c["scenarios"], "wall_s": e["wall_s"]})
     for k in ("evaluations", "scenarios", "simulated_calls", "violating_scenarios"):
         cov[k] = cov.get(k, 0) + c.get(k, 0)
@@ -40,5 +42,5 @@ if wall > 0:
     cov["scenarios_per_hour"] = int(cov["scenarios"] / wall * 3600)
 base["wall_s"] = wall
 base["violations"] = viol
-base["tier"] = "thorough"
+base["tier"] = tier
 json.dump(base, open(out, "w"), indent=1)
